@@ -241,12 +241,12 @@ def main():
         # developer mode: one shared analysis, report which properties fire
         tier = a.tier if a.tier in ("quick", "thorough") else "quick"
         res = get_results(a.repo, tier, a.force)
-        import subprocess
+        a.no_evidence = True
         fired = {}
         for q in sorted(registry.PROPS):
-            r = subprocess.run([sys.executable, os.path.abspath(__file__), q, "--tier", tier, "--repo", a.repo, "--no-evidence"], capture_output=True, text=True)
-            if r.returncode != 0:
-                fired[q] = [l.strip() for l in r.stdout.splitlines() if l.startswith("  rule=")][:5] or [r.stdout[-400:]]
+            rc, lines = evaluate(q, res, tier, 0, a, time.time(), quiet=True)
+            if rc != 0:
+                fired[q] = [l.strip() for l in lines if l.startswith("  rule=")][:5] or lines[-3:]
         print(json.dumps(fired))
         sys.exit(1 if fired else 0)
     if pid not in registry.PROPS:
@@ -256,6 +256,19 @@ def main():
     seed = int(os.environ.get("VERIF_SEED", "0") or 0)
     t0 = time.time()
     res = get_results(a.repo, tier, a.force)
+    rc, _ = evaluate(pid, res, tier, seed, a, t0)
+    sys.exit(rc)
+
+
+def evaluate(pid, res, tier, seed, a, t0, quiet=False):
+    import builtins
+    out_lines = []
+
+    def print(*args):
+        out_lines.append(" ".join(str(x) for x in args))
+        if not quiet:
+            builtins.print(*args)
+
     spec = registry.PROPS[pid]
     counts = {}
     viols = []
@@ -351,7 +364,7 @@ def main():
             want = json.load(open(a.replay))["ident"]
         except Exception:
             print("cannot read replay file", a.replay)
-            sys.exit(2)
+            return 2, out_lines
         replay_hit = any(ident == want for ident, _ in new)
         print("replay %s: %s" % (want, "STILL VIOLATED" if replay_hit else "not reproduced on the current tree"))
     rc = 0
@@ -406,8 +419,10 @@ def main():
     print("%s %s: %d rule instances judged in %d configuration(s), %d violation(s)%s [%.1fs]" % (
         pid, tier, evaluations, len(res["configs"]), len(new), " (shared analysis cached)" if res.get("cached") else "", wall))
     if a.replay:
-        sys.exit(1 if replay_hit else 0)
-    sys.exit(rc)
+        return (1 if replay_hit else 0), out_lines
+    return rc, out_lines
+
+
 
 
 if __name__ == "__main__":
